@@ -792,6 +792,8 @@ func init() {
 		for i := 0; i < 10*c.budget && !c.expired(); i++ {
 			stalledReconnect(c, 1+i%2)
 		}
+		// two stream failures in a row while the sender is still inside a Send on the first broken stream
+		doubleFailure(c)
 		runHistories(c, histProfile{steps: 50, pFault: 6, pEvict: 8, pBad: 10, pUnsolicited: 10, pGet: 55}, 50*c.budget)
 	}
 	props["C04"] = func(c *ctx) {
